@@ -12,6 +12,7 @@ import (
 	"fmt"
 	"sort"
 	"strings"
+	"sync/atomic"
 	"time"
 
 	"github.com/logrange/logrange/pkg/cursor"
@@ -35,7 +36,12 @@ type Replay struct {
 	Where  bool       `json:"where,omitempty"`
 }
 
-const opTimeout = 40 * time.Second
+const opTimeout = 25 * time.Second
+
+// hangs counts operations that did not return; after a few the run stops generating (every hang costs a spinning goroutine)
+var hangs int32
+
+func tooManyHangs() bool { return atomic.LoadInt32(&hangs) >= 3 }
 
 // ------------------------------------------------------------------ oracle
 
@@ -208,6 +214,7 @@ func runDirect(rp *Replay) (Case, error) {
 		cursor.VC04CloseCursor(cur)
 	case <-time.After(opTimeout):
 		rec.hang = true
+		atomic.AddInt32(&hangs, 1)
 	}
 	obs := append([]string{}, rec.coq...)
 	if rec.hang {
@@ -385,6 +392,7 @@ func genDirect(r *Rng) *Replay {
 // ------------------------------------------------------------------ end-to-end runs
 
 type store struct {
+	poisoned bool
 	srv    *Server
 	rec    *recFactory
 	parts  []PartSpec
@@ -420,7 +428,13 @@ func openStore(parts []PartSpec) (*store, error) {
 	return st, nil
 }
 
-func (st *store) close() { st.srv.Stop() }
+func (st *store) close() {
+	if st.poisoned { // a request still spins in this server: leave it, remove its directory
+		defer RemoveAll(st.srv.Dir)
+		return
+	}
+	st.srv.Stop()
+}
 
 func (st *store) items(g []Got) []Item {
 	out := make([]Item, len(g))
@@ -508,7 +522,15 @@ func (st *store) runE2E(j int, subset []int, where bool) (Case, error) {
 	select {
 	case r = <-ch:
 	case <-time.After(opTimeout):
-		return Case{}, fmt.Errorf("query %s did not return", q)
+		atomic.AddInt32(&hangs, 1)
+		st.poisoned = true
+		var ord []Src
+		for _, i := range subset {
+			ord = append(ord, st.srcOf(i, false))
+		}
+		return Case{Replay: &Replay{Kind: "e2e", Parts: st.parts, Subset: subset, Where: where}, Stream: "e2e",
+			Coq:    GApp("KQuery", gSrcs(ord), gFlt(flt), "PHead", GZ(0), GNat(10000), "QHang"),
+			Oracle: &Violation{Class: "c04-hang", Detail: fmt.Sprintf("query %s over %d partitions did not return", q, len(subset))}}, nil
 	}
 	rp := &Replay{Kind: "e2e", Parts: st.parts, Subset: subset, Where: where}
 	cs := Case{Replay: rp, Stream: "e2e", NonTrivial: false}
@@ -706,12 +728,21 @@ func run(c *Ctx) error {
 	}
 	cases := make([]Case, nd)
 	errs := make([]error, nd)
-	Parallel(nd, 8, func(i int) { cases[i], errs[i] = runDirect(reps[i]) })
+	done := make([]bool, nd)
+	Parallel(nd, 8, func(i int) {
+		if tooManyHangs() {
+			return
+		}
+		cases[i], errs[i] = runDirect(reps[i])
+		done[i] = true
+	})
 	for i := range cases {
 		if errs[i] != nil {
 			return errs[i]
 		}
-		c.Add(cases[i])
+		if done[i] {
+			c.Add(cases[i])
+		}
 	}
 
 	// ---- end-to-end stream: small stores with many subset reads, and the 60-partition stores for the limit
@@ -754,6 +785,9 @@ func run(c *Ctx) error {
 			for _, where := range []bool{false, true} {
 				if where && (len(sub) > 20 || r.Chance(1, 2)) {
 					continue
+				}
+				if tooManyHangs() || st.poisoned {
+					return
 				}
 				cs, err := st.runE2E(j, sub, where)
 				if err != nil {
